@@ -22,7 +22,19 @@ def check_tree(ck, key, tree, lltab, best, G, D, label, rep):
 
     _, conc = absstate.project(tree, full=False)
     try:
+        # the function is called several times on one tree object (every summary command does) and must neither
+        # change its answer nor touch the tree's cached arrays
+        from .. import treeadt
+        before = treeadt._snapshot(tree)[1]
+        first = get_map_node_ccfs_and_clonal_prev_dicts(tree)
+        get_map_node_ccfs_and_clonal_prev_dicts(tree)
         ccfs, prev = get_map_node_ccfs_and_clonal_prev_dicts(tree)
+        if treeadt._snapshot(tree)[1] != before:
+            ck.violation("C10|tree_modified", "computing the MAP CCFs changed the tree's cached likelihood arrays (%s)" % absstate.key_str(key), rep)
+            return
+        if any(not np.array_equal(first[0][k_], ccfs[k_]) for k_ in ccfs):
+            ck.violation("C10|not_repeatable", "repeated MAP CCF computations on the same tree object disagree (%s)" % absstate.key_str(key), rep)
+            return
     except Exception as ex:
         ck.violation("C10|exception:%s" % type(ex).__name__, "MAP CCF computation raised %s: %s on %s" % (type(ex).__name__, ex, absstate.key_str(key)), rep)
         return
@@ -68,13 +80,15 @@ def check_tree(ck, key, tree, lltab, best, G, D, label, rep):
             return
 
 
-def part(ck, n, G, D, seed, hi, corrupt=None):
+def part(ck, n, G, D, seed, hi, corrupt=None, offset=0):
     from . import c02
     rs = np.random.RandomState(31 + seed)
-    lltab = rs.randint(0, hi + 1, size=(n, D, G))
+    # offset: log-likelihoods of large magnitude that differ by little (deep data): the optimum is the same assignment,
+    # shifted by (number of data points) * offset, and stays an exact integer
+    lltab = rs.randint(0, hi + 1, size=(n, D, G)) + offset
     tab = np.ones_like(lltab)
     oracle, r = gridoracle.run_oracle("c10_%d_%d_%d" % (n, G, D), tab, lltab=lltab, outl=False, check_def=True)
-    ck.add_tlc("GridOracle max-product N=%d G=%d D=%d (LL in 0..%d): forward pass = definitional optimum" % (n, G, D, hi), r)
+    ck.add_tlc("GridOracle max-product N=%d G=%d D=%d (LL in %d..%d): forward pass = definitional optimum" % (n, G, D, offset, offset + hi), r)
     from phyclone.data.base import DataPoint
     data = [DataPoint(d, np.ascontiguousarray(lltab[d].astype(float))) for d in range(n)]
     for key in sorted(oracle, key=absstate.key_str):
@@ -102,9 +116,11 @@ def run(corrupt=None):
         part(ck, 5, 4, 2, ck.seed + 4, 2)
         part(ck, 4, 6, 1, ck.seed + 2, 1)
         part(ck, 3, 5, 2, ck.seed + 3, 9)
+        part(ck, 4, 4, 2, ck.seed + 5, 3, offset=400000)
     else:
         part(ck, 4, 3, 2, ck.seed, 2, corrupt)
         part(ck, 4, 4, 1, ck.seed + 1, 1)
+        part(ck, 3, 4, 1, ck.seed + 2, 3, offset=400000)
     ck.rule = ("every forest (no outliers) on <= 4-5 data points with integer log-likelihood tables drawn from 0..hi (many ties), three "
                "construction histories each; non-trivial = forests with > 1 clone")
     ck.exhaustive = True
